@@ -130,6 +130,9 @@ func VH_C13_park() {
 	verifrt.Assert(len(l.ab.repeater.members) == 0, "C13/park/dangling-orphan-eventually-dropped")
 	verifrt.Assert(ticks == maxRepeats+1, "C13/park/retried-exactly-the-bounded-number-of-times")
 	verifrt.Assert(len(l.ab.dag.GetVertices()) == before, "C13/park/dropped-orphan-left-nothing")
+	// and the buffer is still usable: another orphan can be parked (its lock was released)
+	c2 := vs[2]
+	verifrt.Assert(l.ab.AddLeaf(context.Background(), c2) == ErrParentDoesNotExists && len(l.ab.repeater.members) == 1, "C13/park/parking-works-after-a-drop")
 	verifrt.Reach("C13/park/end")
 }
 
@@ -180,4 +183,32 @@ func VH_C13_retry_gates() {
 	}
 	l.vhCheck("C03", "gates")
 	verifrt.Reach("C13/gates/end")
+}
+
+// VH_C13_late_invalid_parent: a vertex parked for a missing parent must not be admitted on top of that
+// parent when the parent, arriving later, turns out to overdraw its issuer: the final ledger equals
+// the parents-first ledger (where the overdrawing parent is pruned and the child rejected).
+func VH_C13_late_invalid_parent() {
+	l := vhGenesisLedger("A", spice.New(10, 0))
+	g := l.recs[0].v
+	amt := vhAmt("parent-amount") // symbolic: covered or overdrawing
+	verifrt.Assume(!amt.Empty())
+	r := vhTransfer(1, "A", "B", amt, nil, vhPeerAddr, 51)
+	r.LeftParentHash, r.RightParentHash = g.Hash, g.Hash
+	v := vhTransfer(2, "B", "C", spice.New(0, 1), nil, vhPeerAddr, 52)
+	v.LeftParentHash, v.RightParentHash = r.Hash, r.Hash
+	covered := verifrt.ZLe(vhZ(amt), vhZ(spice.New(10, 0)))
+	verifrt.Assert(l.ab.AddLeaf(context.Background(), v) == ErrParentDoesNotExists, "C13/late-parent/child-parked")
+	verifrt.Assert(l.ab.AddLeaf(context.Background(), r) == nil, "C13/late-parent/parent-accepted-as-tentative-tip")
+	for i := 0; i < 40 && l.vhRetryOnce(); i++ {
+	}
+	if covered {
+		verifrt.Assert(l.vhInDag(v) && l.vhInDag(r), "C13/late-parent/valid-parent-child-admitted")
+	} else {
+		verifrt.Assert(!l.vhInDag(v), "C13/late-parent/child-not-admitted-on-an-overdrawing-parent")
+		verifrt.Assert(!l.vhInDag(r), "C13/late-parent/overdrawing-parent-pruned")
+	}
+	l.vhCheck("C03", "late-parent")
+	l.vhCheck("C09", "late-parent")
+	verifrt.Reach("C13/late-parent/end")
 }
